@@ -54,7 +54,9 @@ def run(chk):
           scan.append({'shape': sh, 'axis': neg, 'keepdims': keep, 'unroll': 1})
           if len(axis) >= 2:
             scan.append({'shape': sh, 'axis': [a - len(sh) if rng.random() < 0.5 else a for a in axis], 'keepdims': keep, 'unroll': 1})
-  reshape = [{'d': d, 'n': n} for d in (1, 2, 4) for n in (1, 3, 4)]
+  LD = ['int8', 'uint8', 'int16', 'uint16', 'int32', 'int64', 'uint32']
+  reshape = [{'d': d, 'n': n, 'classes': rng.choice([2, 5, 130, 200, 257, 300, 1000]), 'ldtype': LD[(i + j) % len(LD)], 'stride': rng.choice([1, 3, 7, 37]),
+              'off': rng.randint(0, 300), 'as_jax': rng.random() < 0.7} for i, d in enumerate((1, 2, 4)) for j, n in enumerate((1, 3, 4, 9, 16))]
   W = 8
   payloads = [{'piter': piter[i::W], 'scan': scan[i::W]} for i in range(W)]
   payloads[0].update({'preal': preal, 'p2d': p2d})
